@@ -24,8 +24,8 @@ ASSUMPTIONS = ['start/stop by name use match=simple when the name contains glob 
                'glob matching would address several watchers)',
                'configuration files never define two names equal ignoring case (ambiguous)']
 BUDGET = {'quick': 240, 'thorough': 1500}
-POOL = ['a', 'A', 'b', 'B b', '', 'ü', 'a.b', '*', 'Web1', 'a ', ' b', '  ', 'Web1\t', 'load50%', '%s', 'x' * 300]
-FILE_POOL = ['a', 'A', 'b', 'B b', 'ü', 'a.b', 'Web1']
+POOL = ['a', 'A', 'b', 'B b', '', 'ü', 'a.b', '*', 'Web1', 'a ', ' b', '  ', 'Web1\t', 'load50%', '%s', 'x' * 300, 'strasse', 'straße']
+FILE_POOL = ['a', 'A', 'b', 'B b', 'ü', 'a.b', 'Web1', 'strasse', 'straße']
 
 
 def plan(tier, seed):
